@@ -167,6 +167,10 @@ type input struct {
 	Want   string `json:"want"`            // accept | reject | any
 	Mutant bool   `json:"mutant,omitempty"`
 	NoCert bool   `json:"no_certificate,omitempty"` // server: the entry carries no certificate / private key
+	// pair monitor (c18_pair_test.go): the upstream address is connected to a real server of this scheme
+	Peer       string `json:"peer_server_scheme,omitempty"`
+	PeerCert   bool   `json:"peer_server_has_certificate,omitempty"`
+	MustSecure bool   `json:"must_secure,omitempty"`
 }
 
 // classifyMutant gives a PRNG-made address the class (and expectation) a hand-written input of the
@@ -212,6 +216,9 @@ func (in input) key() string {
 	k := strings.Join([]string{in.Pos, in.Class, in.Addr, in.Shape, in.Name, in.Fwd, in.Raw}, "|")
 	if in.NoCert {
 		k += "|no-certificate"
+	}
+	if in.Peer != "" {
+		k += fmt.Sprintf("|peer=%s,cert=%v,mustSecure=%v", in.Peer, in.PeerCert, in.MustSecure)
 	}
 	return k
 }
@@ -673,6 +680,10 @@ func TestVerifC18(t *testing.T) {
 			push("start", in)
 		}
 	}
+	// upstream spellings against real servers of every transport kind, a recording relay in between (c18_pair_test.go)
+	for _, in := range pairInputs(rec.Seed(), rec.Thorough()) {
+		push("pair", in)
+	}
 	if e.bin != "" {
 		for _, in := range fwdDet {
 			if forwardBBWorthwhile(in) {
@@ -753,6 +764,8 @@ func (e *env) runCase(d caseDesc) {
 		e.bbCase(d)
 	case "bb-e2e":
 		e.bbChannelE2E(d)
+	case "pair":
+		e.pairCase(d)
 	}
 }
 
